@@ -220,6 +220,13 @@ fn light(line: &str) -> Option<String> {
     let m = refparse::parse(line).ok()?;
     match m.command.as_str() {
         "002" | "003" | "004" | "005" => None,
+        // wall-clock dependent numerics: idle/sign-on time, creation time, topic time
+        "317" | "329" | "333" => Some(format!(
+            "{} {} {}",
+            m.source.clone().unwrap_or_default(),
+            m.command,
+            m.params.get(1).cloned().unwrap_or_default()
+        )),
         "353" => {
             let mut p = m.params.clone();
             if let Some(last) = p.last_mut() {
